@@ -8,6 +8,10 @@ ids = [p["id"] for p in props]
 
 # id -> (engine, technique, level text, level note, design ref)
 CHECKS = {
+ "C07": ("E5", "bounded-exhaustive deviation enumeration (every truncation, byte and 32-bit substitution at every offset of genuine baselines, proto field removal, all tiny byte strings) on every relying-party entry point, executed in journaling worker processes with deterministic allocation accounting",
+         "About 2.5M (thorough: 9M) inputs derived from genuine endorsements (plus 14 field-removal and CA-bundle variants), attestations in 11 accepted formats, certificate tables, event logs with SP800-155 events of every locator type and event payloads are fed to 12 entry points (verify.Endorsement, validator closure, SevValidate, policy/inspect consumers, extract.Attestation, validation of the decoded attestation, FromCertTable, extract.Endorsement from quote and from event-log file, CryptoAgileLog.Unmarshal + Locate with the real efivarfs reader, SP800155Event3.UnmarshalFromBytes, variable locators); a worker journals START/DONE per case so a panic, death (out of memory), horizon or allocation above 64 MiB + 64 x input length is attributed to its input; suspects are re-run alone 3 times at 5x horizon.",
+         "Trusted: per-case horizon 20 s (legitimate cost < 50 ms) with 3x confirmation at 5x; allocation measured with runtime.MemStats.TotalAlloc at GOMAXPROCS=1; deviations are single-site (pairs of size fields only through the tiny-string enumeration).",
+         "DESIGN.md#c07"),
  "C03": ("E3", "explicit exploration of key histories (bootstrap; rotate^n through the real CLI) x endorse request shapes x verification times x authorities, with every endorsement issued so far re-verified after every later command",
          "For memkm+memca, memkm+gcsca and localkm+localca the histories bootstrap, +rotate, +rotate with serial override (thorough: +rotate with a new common name a year later) are driven through cmd.MakeApp; after every command the real endorse command is run for 18 request shapes and every endorsement issued so far is verified by verify.Endorsement at start-1s/start/mid/end/end+1s of the intersection of both certificates' validity, by an independent RSA-PSS check over the raw output of the inspect commands (the documented openssl flow), and every listed measurement / MRTD is pushed through the verifier, the validator closure, SevValidate and TdxValidate for its own configuration.",
          "Trusted: crypto/rsa, crypto/x509; images are small synthetic firmware valid for both technologies; verification times are the five boundary points, not every instant.",
